@@ -574,7 +574,10 @@ impl<'r, 'c, 's, W: Write> DatumSerializer<'r, 'c, 's, W> {
 				let buf = match decimal.repr {
 					DecimalRepr::Bytes => {
 						let mut start = 0;
-						while start < bytes.len() - 1 && bytes[start] == 0 {
+						// Only strip a leading zero byte if what follows still reads as positive
+						while start < bytes.len() - 1
+							&& bytes[start] == 0 && bytes[start + 1] & 0x80 == 0
+						{
 							start += 1;
 						}
 						let buf = &bytes[start..];
